@@ -450,6 +450,56 @@ def f5_cells(seed, n_random=12):
                 arms.append((vn, binds, None, Lit(t, 90 + vi)))
         out.append(P(f"f5_enum_{idx}", "F5", Program([fn_main([("a", t), ("b", t), ("c", t)], t, [Let("e", ety, sel), Let("e2", ety, e)],
                                                                 Match(Var("e2", ety), arms, t))], enums={f"E{idx}": variants_}), {"value"}))
+    # variants with 3-4 payload fields whose alignments go down and up again: constructor writes and match bindings of
+    # every payload position (sixth seeding round: an offset computed from a padded prefix only differs from the third field on)
+    patterns = [["u32", "u8", "u8", "u32"], ["u64", "u8", "u16", "u8"], ["u16", "u8", "u8", "u16"], ["u64", "u32", "u8", "u8"],
+                ["u8", "u64", "u8", "u32"], ["u32", "u16", "u8", "u64"], ["u16", "u8", "u32"], ["u64", "u8", "u8"]]
+    for pi, fts in enumerate(patterns):
+        for t in sorted(set(fts)):
+            ety = ("enum", f"Wd{pi}")
+            variants_ = [("N", []), ("V", fts)]
+            a, b, c = Var("a", t), Var("b", t), Var("c", t)
+            litv = lambda k: Lit(fts[k], 3 + k)
+            k_t = [k for k, ft in enumerate(fts) if ft == t]
+            pay = [[a, b, c][k_t.index(k) % 3] if ft == t else litv(k) for k, ft in enumerate(fts)]
+            sel = If(Bin("<", a, Lit(t, 200), "bool"), Block([], Ctor(ety, "V", pay), ety), Block([], Ctor(ety, "N", []), ety), ety)
+            binds = [f"p{k}" for k in range(len(fts))]
+            terms = []
+            for k, ft in enumerate(fts):
+                if ft == t:
+                    terms.append(Bin("*", Var(binds[k], t), Lit(t, k + 1), t))
+                else:
+                    terms.append(If(Bin("==", Var(binds[k], ft), litv(k), "bool"), Block([], Lit(t, 0), t), Block([], Lit(t, 10 + k), t), t))
+            expr = terms[0]
+            for x in terms[1:]:
+                expr = Bin("+", expr, x, t)
+            out.append(P(f"f5_wide_variant_{pi}_{t}", "F5", Program([fn_main([("a", t), ("b", t), ("c", t)], t, [Let("e", ety, sel), Let("e2", ety, Var("e", ety))],
+                         Match(Var("e2", ety), [("V", binds, None, expr), ("N", [], None, Lit(t, 77))], t))], enums={f"Wd{pi}": variants_}), {"value"}))
+    # a script function that assigns to its record / option parameter: the caller's variable must not change (arguments are
+    # copies), also when the same variable is passed twice (sixth seeding round: plain-data locals passed without a copy)
+    for t in ["i32", "u8", "u64"]:
+        rty = ("rec", "Pt")
+        fields = [("x", t), ("k", "u8"), ("y", t)]
+        a, b, c = Var("a", t), Var("b", t), Var("c", t)
+        pp, qq = Var("p", rty), Var("q", rty)
+        bump = FnDef("bump", [("p", rty), ("d", t)], t, Block([Assign(Field(pp, "x", t), Bin("+", Field(pp, "x", t), Var("d", t), t)),
+                                                               Assign(Field(pp, "y", t), Var("d", t))], Bin("+", Field(pp, "x", t), Field(pp, "y", t), t), t))
+        r = Var("r", rty)
+        stmts = [Let("r", rty, RecLit(rty, [("x", a), ("k", Lit("u8", 4)), ("y", b)])), Let("s", t, Call("bump", [r, c], t))]
+        res = Bin("+", Bin("*", Field(r, "x", t), Lit(t, 3), t), Bin("+", Field(r, "y", t), Var("s", t), t), t)
+        out.append(P(f"f5_callee_assigns_record_param_{t}", "F5", Program([bump, fn_main([("a", t), ("b", t), ("c", t)], t, stmts, res)], records={"Pt": fields}), {"value"}))
+        both = FnDef("both", [("p", rty), ("q", rty)], t, Block([Assign(Field(pp, "x", t), Bin("+", Field(pp, "x", t), Lit(t, 1), t))],
+                                                               Bin("+", Bin("*", Field(pp, "x", t), Lit(t, 2), t), Field(qq, "x", t), t), t))
+        stmts2 = [Let("r", rty, RecLit(rty, [("x", a), ("k", Lit("u8", 4)), ("y", b)])), Let("s", t, Call("both", [r, r], t))]
+        res2 = Bin("+", Field(r, "x", t), Var("s", t), t)
+        out.append(P(f"f5_same_record_passed_twice_{t}", "F5", Program([both, fn_main([("a", t), ("b", t), ("c", t)], t, stmts2, res2)], records={"Pt": fields}), {"value"}))
+        ot = ("opt", t)
+        oo = Var("o", ot)
+        clear = FnDef("clear", [("o", ot)], t, Block([Assign(oo, Ctor(ot, "None", []))], Lit(t, 1), t))
+        v = Var("v", ot)
+        stmts3 = [Let("v", ot, Ctor(ot, "Some", [a])), Let("s", t, Call("clear", [v], t))]
+        res3 = Match(v, [("Some", ["w"], None, Bin("+", Var("w", t), Var("s", t), t)), ("None", [], None, Lit(t, 50))], t)
+        out.append(P(f"f5_callee_assigns_option_param_{t}", "F5", Program([clear, fn_main([("a", t), ("b", t), ("c", t)], t, stmts3, res3)]), {"value"}))
     # matches that name only some variants - not a prefix of the declaration order - and send the rest to `_`
     t = "i32"
     variants_ = [("A", [t]), ("B", ["u8", t]), ("C", []), ("D", [t])]
@@ -876,6 +926,10 @@ def f10_cells():
     unit = Lit("unit", None)
     out.append(P("f10_host_unit_param_first", "F10", Program([fn_main([("a", u32), ("b", u32)], u32, [], Bin("+", Host("after_unit", [unit, au], u32), bu, u32))]), {"value", "trace"}))
     out.append(P("f10_host_unit_param_middle", "F10", Program([fn_main([("a", u32), ("b", u32)], u32, [], Host("around_unit", [au, unit, bu], u32))]), {"value", "trace"}))
+    # a zero-sized registered type (`Val<Zst>`) in front of another argument: the Rust side passes a pointer for it, the value
+    # after it must arrive unchanged - from Rust into the script and from the script into a registered function
+    out.append(P("f10_zst_then_scalar_from_rust", "F10Z", Program([fn_main([("z", "Zst"), ("x", u32)], u32, [], Bin("+", Var("x", u32), Lit(u32, 1), u32))]), {"value"}))
+    out.append(P("f10_zst_then_scalar_to_host", "F10Z", Program([fn_main([("z", "Zst"), ("x", u32)], u32, [], Host("after_zst", [Var("z", "Zst"), Var("x", u32)], u32))]), {"value", "trace"}))
     viu = ("verdict", i32, "unit")
     out.append(P("f10_ret_verdict_i32_unit", "F10", Program([fn_main([("a", i32)], viu, [], If(Bin("<", a, Lit(i32, 0), "bool"), Block([], Ctor(viu, "Accept", [a]), viu), Block([], Ctor(viu, "Reject", [Lit("unit", None)]), viu), viu))]), {"value"}))
     return out
@@ -974,6 +1028,24 @@ def f13_cells():
     cases["fstring_part_returns"] = ([Let("s", S, lit("p"))], Block([ExprStmt(em(FStr(["v=", s_, ":", If(Bin(">", a, b, "bool"), Block([ExprStmt(Ret(one))], a, i32), Block([], b, i32), i32), "!"])))], zero, i32))
     cases["fstring_part_returns_first"] = ([], Block([ExprStmt(em(FStr([If(Bin("==", a, b, "bool"), Block([ExprStmt(Ret(one))], a, i32), Block([], b, i32), i32), "-", lit("tail")])))], zero, i32))
     cases["string_arg_read_order"] = ([Let("s", S, lit("old"))], Call("first_len", [s_, Block([Assign(s_, lit("new!"))], a, i32)], i32))
+    # `+` / `+=` on strings lower to a runtime method: operands left to right, the target of `+=` read before its right-hand side
+    # (sixth seeding round: both operands lowered before either was materialised)
+    ps = lambda e: Host("pure_str", [e], S)
+    cases["concat_operand_order"] = ([], Block([ExprStmt(em(cat(ps(lit("l")), ps(ps(lit("r"))))))], a, i32))
+    cases["concat_left_read_before_right_assigns"] = ([Let("s", S, lit("old"))], Block([Let("t", S, cat(s_, Block([Assign(s_, lit("new"))], lit("!"), S))), ExprStmt(em(t_)), ExprStmt(em(s_))], a, i32))
+    cases["append_assign_target_read_first"] = ([Let("s", S, lit("a"))], Block([Assign(s_, Block([Assign(s_, lit("b"))], ps(lit("7")), S), "+"), ExprStmt(em(s_))], b, i32))
+    cases["concat_effects_in_branch_operand"] = ([], Block([ExprStmt(em(cat(ps(lit("x")), If(Bin("<", a, b, "bool"), Block([], ps(lit("lt")), S), Block([], cat(ps(lit("g")), ps(lit("e"))), S), S))))], a, i32))
+    # Result / Verdict / user enum whose first variant holds a string and whose later variant a less aligned scalar: copies go through
+    # the generated clone function, the scalar payload of the later variant must arrive unchanged (sixth seeding round)
+    u8v = Var("c8", "u8")
+    for nm, ety, okv, errv, scal in [("result_string_u32", ("result", S, "u32"), "Ok", "Err", "u32"), ("verdict_string_u8", ("verdict", S, "u8"), "Accept", "Reject", "u8"),
+                                     ("result_string_u16", ("result", S, "u16"), "Ok", "Err", "u16")]:
+        x = Var("x", scal)
+        mk = If(Bin("<", x, Lit(scal, 100), "bool"), Block([], Ctor(ety, okv, [FStr(["v", x])]), ety), Block([], Ctor(ety, errv, [x]), ety), ety)
+        prog = Program([FnDef("main", [("x", scal)], scal, Block([Let("r", ety, mk), Let("q", ety, Var("r", ety)), Let("w", ("opt", ety), Ctor(("opt", ety), "Some", [Var("q", ety)]))],
+                        Match(Var("w", ("opt", ety)), [("Some", ["i"], None, Match(Var("i", ety), [(okv, ["t"], None, Block([ExprStmt(em(Var("t", S)))], Lit(scal, 1), scal)), (errv, ["e"], None, Var("e", scal))], scal)),
+                                                       ("None", [], None, Lit(scal, 0))], scal), scal))])
+        out.append(P(f"f13_clone_{nm}", "F13", prog, {"ledger", "value", "trace"}))
     for name, (stmts, e) in cases.items():
         helpers_ = [FnDef("first_len", [("p", S), ("n", i32)], i32, Block([ExprStmt(em(Var("p", S)))], Var("n", i32), i32))] if name == "string_arg_read_order" else []
         out.append(P(f"f13_{name}", "F13", Program(helpers_ + [fn_main([("a", i32), ("b", i32)], i32, stmts, e)]), {"ledger", "value", "trace"}))
